@@ -90,3 +90,66 @@ impl BadStream {
         self.state = St::Probe;
     }
 }
+
+/// negative (a false alarm the thorough tier once raised on HashJoinStream): the only literal common to the entries of the finaliser state
+/// `Exhausted` is one the dispatcher establishes before EVERY handler call ("the output buffer is not finished"); it is not the condition
+/// under which the finalisation is owed, so the limit-reached jump Process -> Finished is not a bypass.
+pub enum Ls {
+    Build,
+    Fetch,
+    Process,
+    Exhausted,
+    Finished,
+}
+pub struct LimitStream {
+    pub state: Ls,
+    pub finished: bool,
+    pub limit_hit: bool,
+    pub input: Vec<u32>,
+    pub out: Vec<u32>,
+}
+impl LimitStream {
+    fn buffer_finished(&self) -> bool {
+        self.finished
+    }
+    fn after_build(&self) -> Ls {
+        if self.input.is_empty() { Ls::Exhausted } else { Ls::Fetch }
+    }
+    pub fn poll(&mut self) -> Option<u32> {
+        loop {
+            if self.buffer_finished() {
+                return None;
+            }
+            match self.state {
+                Ls::Build => self.handle_build(),
+                Ls::Fetch => self.handle_fetch(),
+                Ls::Process => self.handle_process(),
+                Ls::Exhausted => self.handle_exhausted(),
+                Ls::Finished => return self.out.pop(),
+            }
+        }
+    }
+    /// the successor is computed by a helper: Build is not a terminal state
+    fn handle_build(&mut self) {
+        self.state = self.after_build();
+    }
+    fn handle_fetch(&mut self) {
+        if self.input.pop().is_none() {
+            self.state = Ls::Exhausted;
+        } else {
+            self.state = Ls::Process;
+        }
+    }
+    fn handle_process(&mut self) {
+        self.out.push(1);
+        if self.limit_hit {
+            self.state = Ls::Finished;
+            return;
+        }
+        self.state = Ls::Fetch;
+    }
+    fn handle_exhausted(&mut self) {
+        self.out.push(99);
+        self.state = Ls::Finished;
+    }
+}
